@@ -96,6 +96,9 @@ func buildPred(c *Case) *predCase {
 	for _, a := range c.srcAliases() {
 		aliases[a.Path] = a.Alias
 	}
+	for p, a := range c.AliasOverride {
+		aliases[p] = a
+	}
 	pk := func(i int) predPkg {
 		if i == -1 {
 			return predPkg{Path: c.Src.Path, Name: c.Src.Name, Alias: aliases[c.Src.Path], San: sanitise(c.Src.Path)}
